@@ -74,6 +74,9 @@ structure Mid (c : C) (r : List Task) (ph : Bool) : Prop where
   c10 : ∀ x ∈ c.conns, x.closeCb = .detached → c.clientAlive = false
   g1 : c.delay = specDelay c.nretry
   g3 : c.stopReq = true → c.cConnect = false ∧ c.tConnect = false
+  /-- scope of the callback operations: `connect()` is never issued from the UP callback (a connection is outstanding),
+  and from the DOWN callback only by a client that does not reconnect by itself -/
+  h1 : HookOp.connect ∉ c.hooksUp ∧ (HookOp.connect ∈ c.hooksDown → c.retry = false)
   t1 : ∃ s, scan c.trace = some s ∧ Rel s c.nsock c.sockSt c.conns c.ups c.nretry c.stopReq c.clientAlive
 
 /-! ### basic facts -/
